@@ -8,7 +8,10 @@ import (
 // recorded (first character of the first token to just past the last token): what C15 expects the
 // parser to recover.
 
-type gd struct{ pos []TokPos }
+type gd struct {
+	pos []TokPos
+	bad *bool // set when the generator's tree has no counterpart in Model/Syntax.v (an edited program that no longer prints as a script)
+}
 
 func (d gd) rng(s Span) string {
 	a, b := d.pos[s.T0], d.pos[s.T1]
@@ -45,10 +48,18 @@ func (d gd) allot(a *GAllot) string {
 	switch a.Kind {
 	case AlRemaining:
 		return fmt.Sprintf("(ARemaining %s)", d.rng(a.Span))
-	case AlVar:
-		return fmt.Sprintf("(AVar %s %s)", d.rng(a.Span), coqStr(a.E.S))
 	}
-	return fmt.Sprintf("(ARatio %s %s %s)", d.rng(a.Span), coqZ(a.E.Num), coqZ(a.E.Den))
+	// an edit may have put another expression where the portion was: what is written decides
+	switch a.E.Kind {
+	case XVar:
+		return fmt.Sprintf("(AVar %s %s)", d.rng(a.Span), coqStr(a.E.S))
+	case XRatio:
+		return fmt.Sprintf("(ARatio %s %s %s)", d.rng(a.Span), coqZ(a.E.Num), coqZ(a.E.Den))
+	}
+	if d.bad != nil {
+		*d.bad = true
+	}
+	return "ANil"
 }
 
 func (d gd) source(s *GSource) string {
@@ -137,4 +148,14 @@ func (d gd) program(p *GProgram) string {
 		}
 	}
 	return fmt.Sprintf("(mkprogram %s %s)", coqList(vs), coqList(ss))
+}
+
+// expectedOrNone: the generator's tree as a Coq term, or "" when it cannot be expressed
+func expectedOrNone(pos []TokPos, prog *GProgram) string {
+	var bad bool
+	e := gd{pos, &bad}.program(prog)
+	if bad {
+		return ""
+	}
+	return e
 }
